@@ -674,3 +674,33 @@ def main(ctx):
                 bounds=dict(selections=len(sels), orders=["all <", "all >", "alternating"],
                             functions=["numpy_util.descr_to_native",
                                        "recfile.Util.remove_dtype_byteorder"]))
+
+    # ------------------------------------------------------------ call sequences
+    # sequences of conversions/predicates on several arrays in one process (mc/worlds.py call_sequences):
+    # a dtype translation memo keyed by too little (names, itemsize), results sharing memory with an
+    # earlier result, a predicate that remembers the previous array
+    from mc.worlds import call_sequences
+
+    def seq_pool():
+        a = np.zeros(3, dtype=[("x", "<f8"), ("v", "<i2", (2,)), ("s", "S3")])
+        a["x"] = [1.5, -2.0, 3.25]
+        a["v"] = [[1, 2], [3, 4], [5, 6]]
+        a["s"] = [b"a", b"", b"abc"]
+        b = np.zeros(3, dtype=[("x", ">i8"), ("v", ">f4"), ("s", "S3")])      # same names and item size, other types
+        b["x"] = [7, 8, 9]
+        b["v"] = [0.5, 1.5, 2.5]
+        b["s"] = [b"q", b"rs", b""]
+        return dict(a=a, b=b, p=np.array([1, 2, 70000], dtype="<i4"), q=np.array([1.0, 2.0, 3.5], dtype=">f8"))
+
+    SEQ_CALLS = [(f, arr, keep) for f in ("to_native", "to_big_endian", "to_little_endian", "byteswap")
+                 for arr in ("a", "b", "p", "q") for keep in (False, True) if not (keep and f != "byteswap" and arr in ("p",))]
+    SEQ_CALLS += [("is_big_endian", arr, None) for arr in ("a", "b", "p", "q")]
+
+    def seq_run(c, pool):
+        f, arr, keep = c
+        if f.startswith("is_"):
+            return [np.array([bool(nu.is_big_endian(pool[arr])), bool(nu.is_little_endian(pool[arr]))])]
+        r = getattr(nu, f)(pool[arr], inplace=False, keep_dtype=keep)
+        return [r, np.array(repr(r.dtype.descr if r.dtype.names else r.dtype.str))]
+
+    call_sequences(ctx, "call-sequences", seq_pool, SEQ_CALLS, seq_run, lambda: [nu, ru], depth=ctx.pick(2, 3), nodedup_depth=3)
